@@ -114,8 +114,8 @@ claim("C16", "DESIGN.md §4 C16",
       "Sensitivity to reordering follows from the stream changing; absence of 64-bit collisions between different streams is not claimed (FNV is not injective)." + COMMON_NOTE)
 claim("C17", "DESIGN.md §4 C17",
       "Bounded model checking of agreement at the leaves, where the dynamic crate keeps private copies of varint/zig-zag: for ALL values of bool, u8..u64, i8..i64, usize/isize, u128/i128 within 64 bits, "
-      "finite f32/f64, char, String <= 3 bytes, Option<u16>, unit, unit struct and newtype struct: to_stdvec_dyn(schema, serde_json::to_value(v)) == to_slice(v) and from_slice_dyn(schema, to_slice(v)) == to_value(v).",
-      "Claimed for leaves and shallow composites only: tuples, sequences, structs, enums and maps need Vec<Value>/Map<String,Value> on the heap and are best-effort harnesses (listed not covered when they do not finish). "
+      "unit: to_stdvec_dyn(schema, serde_json::to_value(v)) == to_slice(v) and from_slice_dyn(schema, to_slice(v)) == to_value(v).",
+      "Claimed for the integer, bool and unit leaves only: floats (f32<->f64 through serde_json::Number), char/String (heap strings), Option, structs, tuples, sequences, enums and maps need Vec<Value>/Map<String,Value> on the heap and are best-effort harnesses (listed not covered when they do not finish). "
       "serde_json is compiled in, not re-verified." + COMMON_NOTE)
 claim("C18", "DESIGN.md §4 C18",
       "Bounded model checking per schema kind with every byte string of 0..=5 bytes symbolic: from_slice_dyn returns (no reachable panic/todo!/out-of-bounds) and unwinding assertions bound its loops by the input; "
